@@ -5,7 +5,7 @@ Decided: R3.1 homogeneity typing: every concrete potential's derivative has degr
 takes (degree analysis through the MRO, attribute sub-potentials and the cffi C functions), displacement has degree -1 in
 speed; R3.3 the axis-permutation table maps direction d to a permutation of (0,1,2) starting with d and every caller of the
 C x-derivative passes permutation_3d(separation, direction); R3.4 the per-unit derivatives of the multi-body (bending)
-potential sum to the zero form and every component is scaled by the same speed; R3.5 the velocity analysis returns
+potential sum to the zero form and every component is scaled by the same speed; R3.2 dimensional consistency by units inference; R3.5 the velocity analysis returns
 (axis, speed of that axis).  Not decided: equality with dE/dx, Ewald convergence / periodicity / oddness.
 """
 import ast
@@ -251,19 +251,71 @@ def check_velocity_analysis(prog: Program, rep: Report) -> None:
            "standard_velocity_derivative(axis, ...) * speed", "the rate must be the space derivative along the axis of motion times the speed")
 
 
+def check_dimensions(prog: Program, src: Source, rep: Report) -> None:
+    """R3.2 units-of-measure inference over the Python potentials and the C potentials."""
+    from ..dims import Solver, show_dim
+    from ..dims_front import PyDims
+    solver = Solver()
+    pd = PyDims(prog, solver, src)
+    pots = [c for c in prog.subclasses("Potential") if prog.is_concrete(c) and c.file.startswith("jellyfysh/potential/")
+            and c.name != "CellBoundingPotential"]
+    determined = {}
+    for c in sorted(pots, key=lambda x: x.name):
+        inst = pd.new_instance(c, c.name, {})
+        for m in ("derivative", "displacement", "standard_velocity_derivative", "standard_velocity_displacement", "potential", "_potential",
+                  "__setstate__"):
+            pd.method(inst, m)
+        pre = inst.attrs.get("_prefactor")
+        if pre is not None and pre.t is not None:
+            v = solver.term_value(pre.t)
+            determined[c.name] = show_dim(v) if v is not None else None
+    for rel, cd in sorted(pd.cunits.items()):
+        for f in cd.unit.functions:
+            if not f.startswith(("destroy", "estimated")):
+                cd.function(f)
+    n_ok = solver.n_constraints - len(solver.conflicts)
+    for k in range(min(n_ok, solver.n_constraints)):
+        pass
+    # one obligation per constraint family: report conflicts individually, the consistent rest as a count
+    seen = set()
+    for cf in solver.conflicts:
+        file, line, qual = cf.origin
+        key = (file, qual, cf.text)
+        if key in seen:
+            continue
+        seen.add(key)
+        rep.ob("R3.2-dimension-consistent", False, Loc(file, line, qual), cf.text,
+               f"dimensionally inconsistent: the two sides differ by {show_dim(cf.residual)} (L length, E energy, T time; p = configured "
+               f"power) under the API contract separations = L, velocities = L/T, potential changes = E, derivative -> E/T, "
+               f"standard_velocity_derivative -> E/L, displacement -> T, standard_velocity_displacement -> L")
+    rep.ob("R3.2-dimension-consistent", True, Loc("jellyfysh/potential", 0, ""), f"{n_ok} dimension constraints consistent", "")
+    rep.extra["dimension_constraints"] = solver.n_constraints
+    rep.extra["inferred_prefactor_dimensions"] = determined
+    n_det = sum(1 for v in determined.values() if v is not None)
+    rep.ob("R3.2-prefactors-inferred", n_det >= 5, Loc("jellyfysh/potential", 0, ""), f"prefactor dimensions inferred: {determined}",
+           "the inference no longer determines the dimensions of the potentials' prefactors (contract anchors lost)")
+    if solver.n_constraints < 500:
+        raise AnalysisError(f"dimension analysis generated only {solver.n_constraints} constraints (about 730 on the pinned tree)")
+
+
 def analyse(src: Source) -> List[Report]:
     rep = Report(ID, src)
     rep.explain(
         "R3.1: abstract interpretation in the domain of homogeneity degrees (speed, charge_one, charge_two): for every concrete "
         "potential the value returned by derivative (resolved through the MRO, through attribute sub-potentials and through the "
         "cffi C functions, whose degree in their prefactor argument is computed from the clang AST) has degree exactly 1 in "
-        "speed and in each charge parameter; displacement has degree -1 in speed. R3.3: the axis permutation table is the "
+        "speed and in each charge parameter; displacement has degree -1 in speed. R3.2: units-of-measure inference: every quantity "
+        "of the Python potentials (per instance, so that the two inverse-power parts of Lennard-Jones are typed with their own "
+        "powers) and of the C potentials gets an unknown exponent vector over (L, E, T); expressions generate linear constraints "
+        "with coefficients in Q(p), p the configured power; the API contract anchors them; an incremental elimination reports "
+        "the first constraint that cannot hold. R3.3: the axis permutation table is the "
         "cyclic permutation starting with the direction and every call of a C routine passes permutation_3d(separation, "
         "direction). R3.4: the tuple returned by a multi-body derivative sums to the zero linear form over its local atoms and "
         "all components are scaled by the same speed. R3.5: velocity analysis returns (axis, velocity[axis]) and the rate is "
         "space derivative x speed. Not decided: equality with the derivative of the energy, Ewald-sum properties.")
     prog = Program(src)
     check_degrees(prog, src, rep)
+    check_dimensions(prog, src, rep)
     check_permutation(prog, rep)
     check_zero_sum(prog, rep)
     check_velocity_analysis(prog, rep)
@@ -295,7 +347,29 @@ MUTANTS = [
     Edit("velocity analysis returns the first component", P + "abstracts.py",
          "return direction_of_motions[0], velocity[direction_of_motions[0]]", "return direction_of_motions[0], velocity[0]", "R3.5"),
 ]
+MIP = P + "merged_image_coulomb_potential/merged_image_coulomb_potential"
+MUTANTS += [
+    Edit("inverse power: exponent power + 1", P + "inverse_power_potential.py", "self._power_plus_two = self._power + 2", "self._power_plus_two = self._power + 1", "R3.2"),
+    Edit("inverse power: norm instead of norm_sq in the potential", P + "inverse_power_potential.py",
+         "return charge_product * self._prefactor / vectors.norm_sq(separation) ** self._power_over_two",
+         "return charge_product * self._prefactor / vectors.norm(separation) ** self._power_over_two", "R3.2"),
+    Edit("displaced even power: derivative exponent", P + "displaced_even_power_potential.py",
+         "(norm_of_separation - self._equilibrium_separation) ** (self._power - 1)", "(norm_of_separation - self._equilibrium_separation) ** self._power", "R3.2"),
+    Edit("lennard jones: sigma ** 6 for the twelve-power term", P + "lennard_jones_potential.py",
+         "characteristic_length ** 12)", "characteristic_length ** 6)", "R3.2"),
+    Edit("C bound: exponent 1 instead of 3/2", IPC, "pow(sx * sx + sy * sy + sz * sz, 3.0 / 2.0)", "pow(sx * sx + sy * sy + sz * sz, 1.0)", "R3.2"),
+    Edit("C bound displacement: adds a potential to a length", IPC, "displacement += system_length_over_two + sx;", "displacement += potential_half_length + sx;", "R3.2"),
+    Edit("C merged image: copy rebuilds with alpha / L for alpha", MIP + ".c",
+         r"(struct MergedImageCoulombPotential \*copy_merged_image_coulomb_potential\(struct MergedImageCoulombPotential \*potential\) \{\n)",
+         r"\1    if (potential->system_length > 0.0) return construct_merged_image_coulomb_potential(potential->fourier_cutoff, "
+         r"potential->position_cutoff, potential->alpha_over_length, potential->system_length);\n", "R3.2", regex=True),
+    Edit("hard sphere: contact time without the square root", P + "hard_sphere_potential.py",
+         "return ((velocity_dot_separation - sqrt(square_root_term)) / velocity_squared", "return ((velocity_dot_separation - square_root_term) / velocity_squared", "R3.2"),
+]
 TWINS = [
+    Edit("inverse power: exponent through a local", P + "inverse_power_potential.py",
+         "        return (self._power * separation[direction] / vectors.norm(separation) ** self._power_plus_two",
+         "        exponent = self._power_plus_two\n        return (self._power * separation[direction] / vectors.norm(separation) ** exponent"),
     Edit("inverse power: factors reordered", P + "inverse_power_potential.py", "* self._prefactor * charge_one * charge_two)", "* charge_two * charge_one * self._prefactor)"),
     Edit("bending: middle component as negated sum", P + "bending_potential.py",
          "- d_potential_by_d_separation_one - d_potential_by_d_separation_two,", "-(d_potential_by_d_separation_one + d_potential_by_d_separation_two),"),
